@@ -125,12 +125,27 @@ pub struct BadMeta {
     pub how: u8,
 }
 
+/// the filter range of a partial open: everything, or a range that selects nothing / next to nothing (the
+/// refusal must not depend on how much of the archive the caller asked for)
+fn partial_range(how: u8) -> (std::ops::Bound<u64>, std::ops::Bound<u64>) {
+    use std::ops::Bound::{Excluded, Included, Unbounded};
+    match (how / 4) % 8 {
+        0 | 1 => (Included(0), Excluded(u64::MAX)),
+        2 => (Unbounded, Included(u64::MAX)),
+        3 => (Included(5), Excluded(5)),
+        4 => (Included(9), Included(2)),
+        5 => (Excluded(u64::MAX), Unbounded),
+        6 => (Included(0), Excluded(0)),
+        _ => (Included(0), Included(0)),
+    }
+}
+
 fn open_any(bytes: &[u8], how: u8) -> Result<std::io::Result<Arch>, Fail> {
     match how % 4 {
         0 => guarded("from_bytes", || Arch::open_sync(bytes.to_vec())),
-        1 => guarded("from_bytes_partially", || pmtiles2::PMTiles::from_bytes_partially(bytes.to_vec(), 0..u64::MAX).map(Arch::Bytes)),
+        1 => guarded("from_bytes_partially", || pmtiles2::PMTiles::from_bytes_partially(bytes.to_vec(), partial_range(how)).map(Arch::Bytes)),
         2 => guarded("from_async_reader", || Arch::open_async(bytes.to_vec())),
-        _ => guarded("from_async_reader_partially", || block_on(pmtiles2::PMTiles::from_async_reader_partially(futures::io::Cursor::new(bytes.to_vec()), ..=u64::MAX)).map(Arch::BytesA)),
+        _ => guarded("from_async_reader_partially", || block_on(pmtiles2::PMTiles::from_async_reader_partially(futures::io::Cursor::new(bytes.to_vec()), partial_range(how))).map(Arch::BytesA)),
     }
 }
 
@@ -154,7 +169,7 @@ fn check_bad_meta(c: &BadMeta) -> CaseResult {
     let b2 = writer::build(&ok);
     let r2 = open_any(&b2.bytes, c.how)?;
     ensure!(r2.is_ok(), "C19/object-metadata-rejected", "control archive with object metadata was rejected: {:?}", r2.err());
-    Ok(Meta::new(true).label(true, "non-object-metadata").label(c.how % 4 >= 2, "open-async").label(c.how % 2 == 1, "open-partial"))
+    Ok(Meta::new(true).label(true, "non-object-metadata").label(c.how % 4 >= 2, "open-async").label(c.how % 2 == 1, "open-partial").label(c.how % 2 == 1 && (c.how / 4) % 8 >= 3, "partial-open-with-empty-or-tiny-range"))
 }
 
 #[derive(Clone, Debug, Serialize, Deserialize)]
@@ -206,7 +221,7 @@ fn check_unknown(c: &UnknownComp) -> CaseResult {
     // the directory parser refuses it too
     let r = guarded("Directory::from_bytes", || pmtiles2::Directory::from_bytes(&b.dirs[0].blob, pmtiles2::Compression::Unknown)).map_err(|f| Fail::new("C19/unknown-compression-open-panics", f.msg))?;
     ensure!(r.is_err(), "C19/unknown-compression-directory-parsed", "Directory::from_bytes accepted compression 'unknown'");
-    Ok(Meta::new(true).label(c.with_meta, "unknown-with-metadata").label(!c.with_meta, "unknown-empty-metadata"))
+    Ok(Meta::new(true).label(c.with_meta, "unknown-with-metadata").label(!c.with_meta, "unknown-empty-metadata").label(c.how % 2 == 1 && (c.how / 4) % 8 >= 3, "partial-open-with-empty-or-tiny-range"))
 }
 
 pub fn run(ctx: &Ctx) {
@@ -243,7 +258,7 @@ pub fn run(ctx: &Ctx) {
         },
         check_unknown,
     );
-    for c in ["empty-add-refused", "empty-add-reader-backed", "zero-length-not-first", "zero-length-big-directory", "non-object-metadata", "unknown-with-metadata", "unknown-empty-metadata", "open-async", "open-partial"] {
+    for c in ["empty-add-refused", "empty-add-reader-backed", "zero-length-not-first", "zero-length-big-directory", "non-object-metadata", "unknown-with-metadata", "unknown-empty-metadata", "open-async", "open-partial", "partial-open-with-empty-or-tiny-range"] {
         ctx.rec.floor(c, 10);
     }
 }
